@@ -716,6 +716,16 @@ class Num:
         if f not in self.nez and len(self.nez) < 64:
             self.nez.append(f)
 
+    def rem_known_zero(self, f: Form) -> bool:
+        """f is the remainder form g - c*Div(g, c) of a quotient of this path and g is a multiple of c"""
+        for s, k in f.terms:
+            info = SYMTAB.syms[s]
+            if info.kind == 'div' and k == -info.data[1] and s in self.divs:
+                g, c = info.data
+                if f.add(Form.sym(s, c)) == g:
+                    return self.residue(g, c) == 0
+        return False
+
     def known_nonzero(self, f: Form) -> bool:
         if not self.nez:
             return False
